@@ -108,12 +108,12 @@ theorem C09_interleavings_meet_spec (F : LockFacts) (ops : Nat → Option COp)
     rw [List.map_append, happ _ _ _ _ hrun, hlast]
   exact C09_model_meets_spec clock limitMs enabled _ s0 s hnew hrun'
 
-/-- The locking of the current tree satisfies the hypothesis for Update, the
-hourly flush, reads and both configuration requests (everything except
-`handleStatsReset`, which calls `clear()` without `confMu`). -/
-theorem C09_real_locks_cover (op : COp) (h : op ≠ .reset) : okFor LockFacts.real op = true := by
+/-- The locking of the current tree satisfies the hypothesis for every
+operation: Update, the hourly flush, reads, both configuration requests and
+(since the fix) `handleStatsReset`. -/
+theorem C09_real_locks_cover (op : COp) : okFor LockFacts.real op = true := by
   cases op with
-  | reset => exact absurd rfl h
+  | reset => rfl
   | upd e => rfl
   | flush id => rfl
   | read => rfl
@@ -145,15 +145,16 @@ def exState3 : State :=
   { db := [], curr := ⟨500000, 3, fun i => if i = 2 then 3 else 0⟩, limit := 24 * msPerHour,
     enabled := true, clock := 500000 }
 
-/-- FINDING (model level).  `handleStatsReset` calls `clear()` without `confMu`
-(`LockFacts.real.resetConf = none`).  Interleaving: reset has replaced the
+/-- FINDING (model level; repaired in /repo since: `handleStatsReset` now takes
+`confMu`).  Before the fix `handleStatsReset` called `clear()` without `confMu`
+(`LockFacts.beforeResetFix`).  Interleaving: reset has replaced the
 database file, the hourly flush runs completely (it still sees the OLD current
 unit and writes it into the NEW file), reset then swaps the current unit.  The
 bucket of hour 500000 with its 3 queries survives the reset; in either
 sequential order it does not (no bucket, or an empty one). -/
 theorem C09_counterexample_reset_vs_flush :
     let ops : Nat → Option COp := fun t => if t = 0 then some (.flush 500001) else if t = 1 then some .reset else none
-    let σ := (concInit LockFacts.real ops exState3).run ([1] ++ List.replicate 11 0 ++ [1, 1, 1])
+    let σ := (concInit LockFacts.beforeResetFix ops exState3).run ([1] ++ List.replicate 11 0 ++ [1, 1, 1])
     (σ.th 0).rest = [] ∧ (σ.th 1).rest = [] ∧
     (σ.st.db.get 500000).map (·.nTotal) = some 3 ∧
     ((clear (tick exState3 500001)).db.get 500000).map (·.nTotal) = none ∧
